@@ -103,6 +103,10 @@ class StartupProp(Prop):
              "ref_" + impl["ref"]["outcome"]["k"]}
         if case.get("outer"):
             f.add("surrounding_context_has_parent")
+        if any(a.get("conflict") for sp in prog for ph in ("prepare", "start") for a in (sp[ph] or [])):
+            f.add("failure_is_a_ResourceConflict")
+        if any(a.get("giveup") for sp in prog for ph in ("prepare", "start") for a in (sp[ph] or [])):
+            f.add("bounded_wait_given_up")
         if case["timeout"] < 1000:
             f.add("finite_timeout")
         kinds = Counter(e["l"][0] for e in impl["trace"])
